@@ -575,7 +575,10 @@ def describe(prop):
               'Enumerated: trunc(L) for every L in [0, min(len,4096)] and b-1,b,b+1 at every structural boundary; sub(pos,v) for pos<64, '
               'v in {0x00,0xff,old+1,old^0x80} (quick: a seeded third of the seed images, thorough: all); hdr2: every pair (Ehdr field, value) x '
               '(Ehdr / Shdr[0] / Shdr[e_shstrndx] field, value) over 8 boundary values on 3 (quick) / 10 (thorough) structurally different seeds. Sampled: 1-4 simultaneous '
-              'structure-aware field corruptions (Ehdr/Shdr/Phdr fields, words inside dynamic/note/hash/version/symbol extents) and random byte strings. '
+              'structure-aware field corruptions (Ehdr/Shdr/Phdr fields, words inside dynamic/note/hash/version/symbol extents; values: boundaries, '
+              'file size, old+-1, top bit, extended-numbering escapes, old scaled by 2^8..2^20 (stays a multiple of the entry size)) and random byte strings. '
+              'Allocation oracle: every run is screened by the growth of its process (peak virtual / resident size, /proc) and decided by the tracemalloc peak '
+              'of a second execution when the screen trips; MemoryError under a 1 GiB address-space limit is a violation. '
               'A run is non-trivial when the fault fired, i.e. the library read a substituted byte or hit the injected end of file; '
               'distinct = distinct (image, overlay) digests among those'),
         components=dict(real=['elftools.elf.* and elftools.common.* / elftools.construct as reached by ELFFile() and the battery '
@@ -585,6 +588,8 @@ def describe(prop):
         assumptions=['BytesIO semantics for the stream (seek past EOF allowed, short reads only at EOF)',
                      'time bound: <= %d*W stream operations and bytes, W = max(file size, 4096); memory bound: largest single read request <= %d*W '
                      '(a real file object allocates the requested size before the syscall; SimStream records instead of allocating)' % (K_OPS, K_READ),
+                     'allocation bound: tracemalloc peak of one guarded step <= %d*W + %d bytes (the constant covers what opening any file costs, about 1.2 MB); '
+                     'allocations below the bound are not judged; the screening stage reads /proc/self/status (Linux)' % (K_MEM, MEM_BASE),
                      'get_section(i)/get_segment(i) are probed for i < %d only' % MAX_INDEXED,
                      'loops that perform no stream operation are only caught by the wall-clock watchdog'],
         exhaustive={'quick': False, 'thorough': False})
